@@ -147,7 +147,8 @@ func (p *Polygon) arcVertex(i int) bool {
 	// distance from a to midpoint
 	dMid := mid.Sub(a).Length()
 	// distance from midpoint to center of arc
-	dCenter := math.Sqrt((radius * radius) - (dMid * dMid))
+	// (zero for a semicircle: rounding can take the difference just below zero)
+	dCenter := math.Sqrt(math.Max(0, (radius*radius)-(dMid*dMid)))
 	// center of arc
 	c := mid.Add(n.MulScalar(dCenter))
 	// work out the angle
